@@ -214,6 +214,8 @@ def _check_case(case):
         grid.update(pl.offset + b for b in pl.bp)
     ats = []
     seen_kinds = set()
+    plan_ok = [0] * len(plans)
+    plan_bad = {}
     for t in sorted(grid):
         try:
             v = env._at(t)
@@ -222,10 +224,12 @@ def _check_case(case):
         pv = _plain(v)
         ats.append(pv)
         ok = False
-        for pl in plans:
+        for pi, pl in enumerate(plans):
             if ref.accepts(pl.demand(t), v):
                 ok = True
-                break
+                plan_ok[pi] += 1
+            else:
+                plan_bad.setdefault(pi, (t, pv))
         if ok:
             continue
         d = plans[0].demand(t)
@@ -246,6 +250,17 @@ def _check_case(case):
             dis.append((kind, list(d), pv,
                         f'_at({t}); segment {si}; expected array {exp}'))
     outcome['at'] = ats
+    # whether _at honours the offset is a don't-care, but it is ONE choice for
+    # the envelope: some plan has to explain every evaluated time
+    if len(plans) > 1 and not dis_has_at(dis) and \
+            all(pi in plan_bad for pi in range(len(plans))):
+        pi = max(range(len(plans)), key=lambda i: plan_ok[i])
+        t, pv = plan_bad[pi]
+        dis.append(('at-offset-handling-inconsistent',
+                    list(plans[pi].demand(t)), pv,
+                    f'_at({t}): no single reading of the offset '
+                    f'({[pl.offset for pl in plans]}) explains all evaluated '
+                    f'times; expected array {exp}'))
 
     # -- 3. EnvGen inputs in definition bytes
     if case.get('def'):
@@ -253,6 +268,10 @@ def _check_case(case):
     if reuse in ('def-ie', 'def-ei'):
         dis += check_def_reuse(case, exp, spec, outcome, reuse)
     return dis, outcome
+
+
+def dis_has_at(dis):
+    return any(d[0].startswith('at-') for d in dis)
 
 
 GATE, LSCALE, LBIAS, TSCALE, DONE = 3, 5, 7, 11, 2
@@ -694,6 +713,15 @@ def families(tier):
         'X': [0, 1, 2] if q else [0, 0.5, 1, 2], 'Y': [0, 1, 2],
         'maxpts': 3, 'Cscalar': ['sin', -4, 'exp'],
         'Clist': ['lin', -4] if q else ['lin', -4, 'exp']}, 16))
+    # envelopes that start late (first point well after 0, offset larger
+    # than the last segments): whichever way _at reads the offset, it is one
+    # reading for all times
+    fams.append(('ctor-pairs-late', 'points', {
+        'name': 'pairs', 'def': None, 'X': [1, 1.5, 2, 3], 'Y': [0, 1, 2],
+        'maxpts': 3, 'Cscalar': [], 'Clist': ['lin']}, 16))
+    fams.append(('ctor-xyc-late', 'points', {
+        'name': 'xyc', 'def': None, 'X': [1, 1.5, 2, 3], 'Y': [0, 1, 2],
+        'maxpts': 3, 'Clist': ['lin']}, 16))
     fams.append(('ctor-xyc-ties', 'points', {
         'name': 'xyc', 'def': None, 'ties': True,
         'X': [0, 1, 2] if q else [0, 0.5, 1, 2], 'Y': [0, 1, 2],
